@@ -29,6 +29,9 @@ if os.path.realpath(sys.executable) != os.path.realpath(PY) and os.path.exists(P
 REPO = os.environ.get("VERIF_REPO", "/repo")
 sys.path.insert(0, VERIF)
 sys.path.insert(0, os.path.join(REPO, "src"))
+if os.environ.get("VERIF_OVERLAY"):
+    # sanitizer-instrumented copy of the package (tools/build_asan.py) takes precedence
+    sys.path.insert(0, os.environ["VERIF_OVERLAY"])
 
 
 def _env_for_children():
@@ -112,6 +115,14 @@ def shard_main(args):
 # ---------------------------------------------------------------------------
 # parent
 # ---------------------------------------------------------------------------
+def sanitizer_findings(log_text):
+    out = []
+    for ln in log_text.splitlines():
+        if "ERROR: AddressSanitizer" in ln or ("runtime error:" in ln and "cutadapt" in ln):
+            out.append(ln.strip()[:300])
+    return out
+
+
 def run_shards(ident, tier, specs, jobs, timeout_s):
     env = _env_for_children()
     tmp = tempfile.mkdtemp(prefix=f"verif-{ident}-")
@@ -119,16 +130,34 @@ def run_shards(ident, tier, specs, jobs, timeout_s):
     running = {}
     results = [None] * len(specs)
     errors = []
+    asan_env = None
+    overlay = None
+    if any(s.get("asan") for s in specs):
+        import build_asan
+
+        overlay = tempfile.mkdtemp(prefix="verif-asan-", dir="/tmp")
+        try:
+            build_asan.build(REPO, overlay)
+            asan_env = build_asan.runtime_env(overlay)
+        except Exception as e:  # noqa
+            subprocess.run(["rm", "-rf", overlay])
+            harness_fail(f"sanitizer build failed: {e}")
+    run_shards.sanitizer = []
     try:
         while pending or running:
             while pending and len(running) < jobs:
                 i, spec = pending.pop(0)
                 out = os.path.join(tmp, f"shard{i}.json")
                 log = open(os.path.join(tmp, f"shard{i}.log"), "w")
+                senv = env
+                if spec.get("asan"):
+                    senv = dict(env, **asan_env)
+                    senv["PYTHONPATH"] = overlay + os.pathsep + env["PYTHONPATH"]
+                    senv["VERIF_LASTCASE"] = os.path.join(tmp, f"shard{i}.lastcase")
                 p = subprocess.Popen(
                     [PY, os.path.join(VERIF, "run_check.py"), ident, "--tier", tier,
                      "--shard", json.dumps(spec), "--out", out],
-                    env=env, stdout=log, stderr=subprocess.STDOUT, cwd=VERIF,
+                    env=senv, stdout=log, stderr=subprocess.STDOUT, cwd=VERIF,
                 )
                 running[i] = (p, out, log, time.time(), spec)
             time.sleep(0.05)
@@ -145,6 +174,19 @@ def run_shards(ident, tier, specs, jobs, timeout_s):
                     continue
                 log.close()
                 del running[i]
+                if spec.get("asan"):
+                    with open(log.name, errors="replace") as f:
+                        found = sanitizer_findings(f.read())
+                    if found:
+                        last = None
+                        try:
+                            with open(os.path.join(tmp, f"shard{i}.lastcase")) as f:
+                                last = json.load(f)
+                        except (OSError, ValueError):
+                            pass
+                        run_shards.sanitizer.append({"spec": spec, "messages": found[:5], "last_case": last})
+                        if rc != 0:
+                            continue
                 if rc == 0 and os.path.exists(out):
                     with open(out) as f:
                         results[i] = json.load(f)
@@ -156,6 +198,8 @@ def run_shards(ident, tier, specs, jobs, timeout_s):
         for p, *_ in running.values():
             p.kill()
         subprocess.run(["rm", "-rf", tmp])
+        if overlay:
+            subprocess.run(["rm", "-rf", overlay])
     return results, errors
 
 
@@ -307,6 +351,13 @@ def main():
             continue
         seen.add(key)
         path = write_replay(ident, rec, seed, f"generated search, tier={args.tier}")
+        violations.append((path, rec["message"]))
+
+    for sf in getattr(run_shards, "sanitizer", []):
+        rec = {"case": sf["last_case"] or {"sub": sf["spec"]["sub"], "note": "case unknown"},
+               "message": "sanitizer report while running the check: " + " | ".join(sf["messages"][:2]),
+               "observed": sf["messages"], "expected": "no AddressSanitizer/UBSan report", "tag": "sanitizer"}
+        path = write_replay(ident, rec, seed, "sanitizer build, tier=" + args.tier)
         violations.append((path, rec["message"]))
 
     wall = time.time() - t0
